@@ -12,12 +12,14 @@ CLAUSES = {
 ENABLED = {"C10"}
 
 
-def alphabet_for(tkw):
+def alphabet_for(tkw, hc=None):
     def alphabet(dt, rich):
         A = [L.tick(500), L.tick(2000)]
         for e in ["T21", "T22", "SUS", "OPN", "RM1", "CL"] + (["IP", "T2x"] if rich else []):
             A.append(L.tick(500, e))
         def p(name, **kw):
+            if hc is not None:
+                kw.setdefault("hc", hc)  # the runner is a handicap line of selection 1
             return L.P(name, trade_kw=dict(tkw), **kw)
         for name in ["XB", "PBn", "FOK", "PBv"] + (["XBp", "PBm", "P2"] if rich else []):
             A.append(L.tick(500, "Q", [p(name)]))
@@ -45,6 +47,7 @@ CONFIGS = [
     ("multi-placereset", dict(max_live_trade_count=2, multi_order_trades=True), dict(place_reset_seconds=1.5)),
     ("multi-both", dict(max_trade_count=2, max_live_trade_count=2, multi_order_trades=True), dict(reset_seconds=1.5, place_reset_seconds=1.5)),
     ("live2", dict(max_live_trade_count=2), dict(reset_seconds=1.5)),
+    ("handicap-line", dict(max_live_trade_count=1), dict()),
 ]
 
 
@@ -57,7 +60,11 @@ def run(tier):
     rep = core.Report("C10", tier, "E1 simx")
     for name, skw, tkw in CONFIGS:
         cfg = dict(name=name, dt=500, strategy_kw=skw, rich=(tier == "thorough"))
-        c04.explore(rep, ENABLED, alphabet_for(tkw), tier, [cfg], depth_q=3, depth_t=4, dev_k_q=2, dev_k_t=3, horizon=6, run=_run)
+        hc = None
+        if name == "handicap-line":
+            hc = -1.5
+            cfg["sels"] = ((1, 0), (2, 0), (1, -1.5))
+        c04.explore(rep, ENABLED, alphabet_for(tkw, hc), tier, [cfg], depth_q=3, depth_t=4, dev_k_q=2, dev_k_t=3, horizon=6, run=_run)
     rep.need("trade_completions", "refused_by_accounting", "runner_all_complete", "placed")
     rep.bounds["configs"] = [c[0] for c in CONFIGS]
     rep.rule = "per configuration of (max_trade_count, max_live_trade_count, multi_order_trades, reset/place_reset seconds): BFS with dedup + deviation-bounded histories of placements (new trade / same trade / inside `with trade:` / replacement), fills, cancels, lapses, voids, failed placements; accounting recounted from the blotter's orders at the end of every update"
